@@ -8,12 +8,14 @@ import vlib
 from vlib import coq_list
 
 HEADER = ('From Coq Require Import List NArith.\nImport ListNotations.\n'
-          'From Teleport Require Import Base.Outcome Model.Bridge Model.BridgeCheck.\nLocal Open Scope N_scope.\n')
+          'From Teleport Require Import Base.Outcome Model.Bridge Model.BridgeCheck Model.BridgeGov Model.BridgeGovCheck.\n'
+          'Local Open Scope N_scope.\n')
 
 KINDS = {
     1: 'model and code disagree on whether the operation is accepted',
     2: 'model and code disagree on the acknowledgement result code written by the destination',
-    4: 'malformed case: bindings of the history are not unique',
+    4: 'malformed case: bindings of the history are not unique or have scale factor 0',
+    6: 'malformed case: the history registers a binding whose slot or trace is already in use (re-binding is outside the property)',
     5: 'decoded initial observation does not project back (harness/decoder layout)',
     31: 'model and code disagree on a balance after the step',
     32: 'model and code disagree on a totalSupply after the step',
@@ -38,6 +40,8 @@ KINDS = {
     22: 'a packet was sent with a sequence other than the next one',
     24: 'an error acknowledgement was written but the callback sent a packet on',
     25: 'an accepted acknowledgement did not move the relayer fee of the packet from the packet contract to the relayer',
+    26: 'the first registration of a token binding (RegisterERC20Trace) was refused',
+    27: 'the registration of a token binding changed a balance / counter of some chain',
 }
 for _k in (16, 17, 18, 19, 21):
     KINDS[100 + _k] = 'initial state of the history: ' + KINDS[_k]
@@ -105,20 +109,32 @@ def cobs_term(o):
         nlist(o['bal']), nlist(o['supply']), nlist(o['out']), nlist(o['bind']), nlist(o['next']), pk, nlist(o['eff'])))
 
 
+def bentry_term(c, loc, src, ori, scale):
+    return '(%s, %s, %s, %s, %s)' % (nat(c), nat(loc), nat(src), nat(ori), N(10 ** int(scale or 0)))
+
+
+def step_term(st):
+    o = st['op']
+    if o['k'] == 'B':   # RegisterERC20Trace: the operation field of the observed step is a dummy
+        bind = '(Some %s)' % bentry_term(o['c'], o['tok'], o['src'], o['ftok'], o['scale'])
+        opt = '(AddFee 0%nat 0%nat 0%nat 0 0)'
+    else:
+        bind, opt = 'None', op_term(o)
+    return ('{| gs_bind := %s; gs_step := {| os_op := %s; os_class := %s; os_code := %s; os_onward := %s; os_obs := %s |} |}' % (
+        bind, opt, nat(st['class']), N(st['code']), onward_term(st.get('onward')), coq_list([cobs_term(x) for x in st['obs']])))
+
+
 def hist_term(r):
     s = r['spec']
     U = '{| u_n := %s; u_users := %s; u_ntok := %s |}' % (nat(s['nchains']), nat(s['nusers']), coq_list([nat(x) for x in s['ntok']]))
-    binds = coq_list(['(%s, %s, %s, %s, %s)' % (nat(b['c']), nat(b['loc']), nat(b['src']), nat(b['ori']), N(10 ** int(b.get('scale', 0))))
-                      for b in (s.get('binds') or [])])
-    steps = coq_list(['{| os_op := %s; os_class := %s; os_code := %s; os_onward := %s; os_obs := %s |}' % (
-        op_term(st['op']), nat(st['class']), N(st['code']), onward_term(st.get('onward')),
-        coq_list([cobs_term(o) for o in st['obs']])) for st in (r['steps'] or [])])
-    return '{| h_u := %s; h_binds := %s; h_init := %s; h_steps := %s |}' % (
+    binds = coq_list([bentry_term(b['c'], b['loc'], b['src'], b['ori'], b.get('scale', 0)) for b in (s.get('binds') or [])])
+    steps = coq_list([step_term(st) for st in (r['steps'] or [])])
+    return '{| gh_u := %s; gh_binds := %s; gh_init := %s; gh_steps := %s |}' % (
         U, binds, coq_list([cobs_term(o) for o in r['init']]), steps)
 
 
 SHARD = 4
-NCORPUS = 6   # harness/cmd/c03/gen.go: histories 0..5 are the directed corpus
+NCORPUS = 7   # harness/cmd/c03/gen.go: histories 0..6 are the directed corpus
 
 
 def evaluate(workdir, results, tag='cases'):
@@ -127,10 +143,10 @@ def evaluate(workdir, results, tag='cases'):
 
     def one(ix):
         i, sh = ix
-        defs = ''.join('Definition case_%d : hist := %s.\n' % (j, hist_term(r)) for j, r in enumerate(sh))
-        defs += 'Definition cases : list hist := %s.\n' % coq_list(['case_%d' % j for j in range(len(sh))])
+        defs = ''.join('Definition case_%d : ghist := %s.\n' % (j, hist_term(r)) for j, r in enumerate(sh))
+        defs += 'Definition cases : list ghist := %s.\n' % coq_list(['case_%d' % j for j in range(len(sh))])
         res = vlib.coq_eval_lists(workdir, '%s_%d.v' % (tag, i), HEADER, defs,
-                                  [('M', 'mismatches cases'), ('F', 'monitor_failures cases')])
+                                  [('M', 'gmismatches cases'), ('F', 'gmonitor_failures cases')])
         m = vlib.parse_nat_tuples(res.get('M'), 3)
         f = vlib.parse_nat_tuples(res.get('F'), 3)
         if res['_rc'] != 0 or m is None or f is None:
@@ -228,7 +244,8 @@ def signature(res, step):
     return '%s/cd%s/code%s' % (st['op']['k'], st['op'].get('cd', 0), st['code'])
 
 
-FAULTS = {0: 'recv_altered_packet', 1: 'ack_forged_code', 2: 'recv_misrouted', 3: 'ack_misrouted', 4: 'ack_altered_packet'}
+FAULTS = {0: 'recv_altered_packet', 1: 'ack_forged_code', 2: 'recv_misrouted', 3: 'ack_misrouted', 4: 'ack_altered_packet',
+          5: 'packet_sent_event_from_a_user_contract'}
 CDNAMES = {0: 'none', 1: 'ok', 2: 'revert', 3: 'hookfail', 4: 'onward_unknown', 5: 'agent_multihop'}
 
 
@@ -250,9 +267,15 @@ def coverage(run, results, mm, ff):
             o = st['op']
             k = o['k']
             acc = 'accepted' if st['class'] == 0 else 'rejected'
-            dist['%s_%s' % ({'T': 'transfer', 'R': 'recv', 'A': 'ack', 'F': 'addfee', 'X': 'fault'}[k], acc)] += 1
+            dist['%s_%s' % ({'T': 'transfer', 'R': 'recv', 'A': 'ack', 'F': 'addfee', 'X': 'fault', 'B': 'bind'}[k], acc)] += 1
             if k == 'X':
                 dist['fault_%s_%s' % (FAULTS.get(o['fk'], o['fk']), acc)] += 1
+            if k == 'B' and st['class'] == 0:
+                bound[(o['c'], o['tok'], o['src'])] = dict(c=o['c'], loc=o['tok'], src=o['src'], ori=o['ftok'], scale=o['scale'])
+                pend = sum(1 for kk, v in state.items() if v in ('sent', 'recv_err') and kk[0] == o['src'] and kk[1] == o['c']
+                           and sent[kk].get('tok') == o['ftok'] and sent[kk].get('path') == 'forward' and int(sent[kk].get('amt') or 0) > 0)
+                dist['bind_mid_history_with_%s_packets_of_the_token_in_flight' % ('0' if pend == 0 else '1+')] += 1
+                nontrivial.add(json.dumps(['B', o['c'], o['tok'], o['src'], o['ftok'], o['scale']]))
             if k == 'T' and st['class'] == 0:
                 ret = (o['c'], o['tok'], o['dst']) in bound and int(o['amt']) > 0
                 sent[(o['c'], o['dst'], st['op']['seq'])] = dict(o, path='return' if ret else 'forward',
@@ -338,19 +361,40 @@ def coverage(run, results, mm, ff):
         samples=([sample(results[3], 12)] if len(results) > 3 else []) + ([sample(results[-1], 8)] if results else [])))
 
 
+def coqchk_extra(run):
+    """thorough tier: the independent checker also re-checks the tie and schema statements (run.coqchk_stage covers
+    Props/C03.v and Refuted/C03_*.v)"""
+    import re
+    mods = ['Teleport.Props.C03_tie', 'Teleport.Props.C03_schema']
+    with vlib.Lock('coq'):
+        rc, out = vlib.sh(['coqchk', '-silent', '-o', '-Q', vlib.THEORIES, 'Teleport'] + mods, cwd=vlib.COQ, timeout=2400)
+    m = re.search(r'\* Axioms:(.*?)\n\s*\n\* Constants', out, flags=re.S)
+    axioms = m.group(1).strip() if m else 'unparsed'
+    run.coverage['coqchk_tie'] = dict(cmd='coqchk -silent -o -Q theories Teleport ' + ' '.join(mods), rc=rc, axioms=axioms)
+    if rc != 0 or axioms != '<none>':
+        run.proof['build_ok'] = False
+        run.proof['build_log'] += '\n[coqchk tie]\n' + out[-2000:]
+
+
+EXTRA = ['theories/Props/C03_tie.v', 'theories/Props/C03_schema.v', 'theories/Model/BridgeGovCheck.v']
+
+
 def check(run):
-    run.proof_stage()
+    run.proof_stage(extra_modules=EXTRA)
     if not run.proof_ok():
         # the Coq build is shared (translators and make run for the whole development under a lock): retry once so
         # that a transient failure outside this property's files is not reported as a broken obligation
-        run.proof_stage()
+        run.proof_stage(extra_modules=EXTRA)
+    if not run.quick() and run.proof_ok():
+        run.coqchk_stage()
+        coqchk_extra(run)
     ok, out = vlib.build_harness(['c03'])
     if not ok:
         run.violation(dict(kind='harness-build-failed', log=out[-3000:],
                            explanation='the correspondence harness no longer builds against /repo'), no_input=True)
         return run.finish()
-    n = run.budget(20, 150)
-    ops = run.budget(40, 60)
+    n = run.budget(20, 360)
+    ops = run.budget(40, 70)
     results, err = run_generated(run.work, run.seed, n, ops, not run.quick())
     if results is None:
         run.violation(dict(kind='harness-crashed', log=err), no_input=True)
@@ -364,11 +408,16 @@ def check(run):
         'hand-written model Model/Bridge.v of the byte-code-only packet/endpoint/execute/agent contracts and of '
         'msg_server.RecvPacket/Acknowledgement, tied to the real code by this differential run (the generator bounds what it sees); '
         'the EVM byte code itself is modelled, not verified',
-        'packet layer abstract (exactly-once receive, authentic acknowledgements: properties C01/C02/C05)',
+        'packet layer abstract in Model/Bridge.v (exactly-once receive, authentic acknowledgements: properties C01/C02/C05; rules tied by Props/C03_tie.v)',
+        'translator tools/gotocoq/abischema (Gen/AbiSchemaGen.v) for the wire-schema obligation Props/C03_schema.v',
         'harness glue: x/xibc/testing chains, observation layout (decoded in Coq, round trip checked per history)']
     run.assumptions += [
-        'bindings registered before the history, at most one local token per (chain, source chain, origin token) and vice versa '
-        '(re-binding an origin token to a second local token is a governance action outside the property)',
+        'token bindings: at most one local token per (chain, source chain, origin token) and vice versa, scale factors 10^n, each '
+        'slot registered at most once - before or in the middle of the history (no_rebind; a second registration resets '
+        'bindings.amount: Refuted/C03_rebind.v; it is a governance action outside the property and the generator never does it)',
+        'between the packet layer (Model/Packet.v: C01 C02 C04 C05) and this value layer: light clients are sound and packet / '
+        'acknowledgement commitments collision free, so a relayed packet / acknowledgement is the one the counterparty produced '
+        '(the receive / acknowledge / at-most-once rules themselves are proved about the transcribed handlers: Props/C03_tie.v)',
         'no ERC-20 transfers directly between users and system contracts other than through crossChainCall / addPacketFee; '
         'tokens are plain ERC-20s (no fee-on-transfer), users approved the endpoint / packet contract',
         'amounts below 2^128 (uint256 overflow of the contracts is not modelled)',
